@@ -2,6 +2,7 @@ import LyModel.Valid.Hist
 import LyModel.Valid.SpecDefaults
 import LyModel.Valid.LemmasImplicit
 import LyModel.Valid.LemmasLoop
+import LyModel.Valid.WellFormed
 /-!
 # C07 — validation is an idempotent normalisation whose reported changes are exact
 
@@ -37,6 +38,52 @@ example :
       { depth := 0, kind := .container, name := "n" }] }
     let X := SchemaX.ofSchema S
     ((implL X {} {} X.top []).2.evs.map (·.node.sid), (implL X {} {} X.top []).1.length) = ([0, 1, 1, 2], 4) := by decide
+
+/-! ## idempotence -/
+
+/-- **`validate_idempotent`** — for every schema without `choice` / `case` (defaults, leaf-list defaults, non-presence and presence
+containers, lists in any nesting), every option set and EVERY tree that follows the schema, whatever flags `LYD_NEW` /
+`LYD_DEFAULT` its nodes carry (so: after any history of edits and validations): validating the result of a validation returns the
+same tree and an empty change set.  Hypotheses about the schema (`KidsLookupOk`: schema ids are unique; `NoChoiceX`, `NoCase`;
+the fuel of the walk covers the schema height) are decidable and hold for every parsed schema of the class; the theorem is
+stated for the model's continue-after-error semantics, so it does not even need the first validation to succeed. -/
+theorem validate_idempotent (X : SchemaX) (o : VOpts) (t : List DNode)
+    (hl : KidsLookupOk X) (hnc : NoChoiceX X) (hc : NoCase X.base)
+    (hp : placedL X X.top t = true) (hh : sheightL X.top ≤ walkFuel X t) :
+    (validate X o (validate X o t).tree).tree = (validate X o t).tree ∧
+    (validate X o (validate X o t).tree).evs = [] := by
+  by_cases hpe : (o.present && t.isEmpty) = true
+  · have : (validate X o t).tree = [] := by
+      unfold validate; simp only [hpe, if_true]
+    rw [this]
+    have hpe' : (o.present && ([] : List DNode).isEmpty) = true := by
+      simp only [Bool.and_eq_true] at hpe ⊢; exact ⟨hpe.1, rfl⟩
+    unfold validate
+    simp only [hpe', if_true]
+    exact ⟨trivial, rfl⟩
+  · exact validate_of_stable X o hc hnc _ (validate_stable X o hl hnc t hp hh (by simpa using hpe))
+
+/-- the example schema: `container c { leaf d { default "x"; } leaf-list ll { default "a"; default "b"; } container n { leaf e { default
+"y"; } } list l { key k; leaf k; leaf v { default "z"; } } }` -/
+def Sx : Schema := { modName := "ex7", nodes := [
+  { depth := 0, kind := .container, name := "c" },
+  { depth := 1, kind := .leaf, name := "d", dflts := [[120]] },
+  { depth := 1, kind := .leaflist, name := "ll", dflts := [[97], [98]] },
+  { depth := 1, kind := .container, name := "n" },
+  { depth := 2, kind := .leaf, name := "e", dflts := [[121]] },
+  { depth := 1, kind := .list, name := "l", nkeys := 1 },
+  { depth := 2, kind := .leaf, name := "k", iskey := true },
+  { depth := 2, kind := .leaf, name := "v", dflts := [[122]] }] }
+def Xx : SchemaX := SchemaX.ofSchema Sx
+/-- a history state: an old default `d`, a new explicit `d` next to it (to be auto-deleted), a new list entry -/
+def tx : List DNode := [.inner 0 {} [] [.term 1 { dflt := true } [] [120], .term 1 { new := true } [] [119],
+  .inner 5 { new := true } [] [.term 6 { new := true } [] [49]]]]
+
+/-- non-vacuity: the hypotheses hold for the example, the first validation deletes the superseded default and creates six implicit
+nodes (`ll` twice, `n`, `n/e`, `l/v`; 1 delete + 5 creates), the second one does nothing -/
+example : KidsLookupOk Xx ∧ NoChoiceX Xx ∧ NoCase Xx.base ∧ placedL Xx Xx.top tx = true ∧ sheightL Xx.top ≤ walkFuel Xx tx ∧
+    (validate Xx {} tx).evs.length = 6 ∧ (validate Xx {} (validate Xx {} tx).tree).evs = [] := by
+  refine ⟨lookupOk_of_B Xx (by decide), noChoiceX_of_B Xx (by decide), by unfold NoCase; decide, by decide, by decide, by decide, by decide⟩
 
 /-! ## `lyd_is_default` against RFC 6243 / RFC 7950 §7.7.2 -/
 
